@@ -151,4 +151,36 @@ Ends(G, w) ==
       R == Reach(G, nu)
       rank == [n \in NodesOf(G) |-> Cardinality(R[n] \ {n})]
   IN PosLoop(G, w, [n \in NodesOf(G) |-> [p \in 0..Len(w) |-> {}]], rank, Len(w))
+
+\* ---- soundness of a returned TREE ---------------------------------------------------
+\* trees as the harness renders them (global positions, B = base offset of the file):
+\*   <<"T", s, e, token>>  <<"E", p, p>>  <<"EOF", p, p>>  <<"N", s, e, token, <<children>>>>
+\* ValidTree: t is a derivation of node n starting at position p: the children come from the right element
+\* parsers, spans are contiguous, leaves spell the input, the length satisfies the combinator's rule and - for
+\* the longest-path combinators - the path is maximal (T = Ends(G, w) tells whether the next element derives
+\* anything there).  seen: nodes already visited for this very tree (cyclic unit rules).
+RECURSIVE ValidTree(_, _, _, _, _, _, _, _)
+ValidTree(G, w, B, T, n, t, p, seen) ==
+  LET g == G[n] IN
+  /\ n \notin seen
+  /\ t[2] = p
+  /\ CASE g.k = "term" -> t[1] = "T" /\ t[3] = p + 1 /\ p - B < Len(w) /\ w[p - B + 1] = g.ch
+       [] g.k = "end" -> t[1] = "EOF" /\ t[3] = p /\ p - B >= Len(w)
+       [] g.k = "empty" -> t[1] = "E" /\ t[3] = p
+       [] g.k = "opt" -> (t[1] = "E" /\ t[3] = p) \/ ValidTree(G, w, B, T, g.kids[1], t, p, seen \cup {n})
+       [] g.k \in {"any", "choice"} -> \E i \in 1..Len(g.kids) : ValidTree(G, w, B, T, g.kids[i], t, p, seen \cup {n})
+       [] g.k \in {"memo", "named", "pass"} -> ValidTree(G, w, B, T, g.kids[1], t, p, seen \cup {n})
+       [] g.k = "seq" ->
+            /\ t[1] = "N"
+            /\ LET ks == t[5]
+                   d == Len(ks)
+                   startOf(i) == IF i = 1 THEN p ELSE ks[i - 1][3]
+                   endPos == IF d = 0 THEN p ELSE ks[d][3]
+                   nextEl == Elem(G, n, d)
+               IN /\ LenOK(G, n, d)
+                  /\ t[3] = endPos
+                  /\ \A i \in 1..d : Elem(G, n, i - 1) # 0 /\ ValidTree(G, w, B, T, Elem(G, n, i - 1), ks[i], startOf(i), {})
+                  /\ (nextEl # 0 => T[nextEl][endPos - B] = {})          \* the path is maximal
+                  /\ (d > 0 /\ ks[d][1] = "EOF") \/ TRUE
+       [] OTHER -> FALSE
 =============================================================================
